@@ -1087,6 +1087,7 @@ def unwind_rule(ctx, P, fns, floor=10, only_readers=True, extra_allocs=(), extra
         # locals assigned from an allocator
         owned = {}
         objects = set()
+        obj_sites = {}
         for c in f.calls():
             cal = f.nodes[c].get("callee")
             if cal in ALLOCS and cal not in ("__ckd_alloc_2d_ptr", "__ckd_alloc_3d_ptr") or cal in ("s3file_copy_header_value", "s3file_copy_header_name", "s3file_copy_nextword", "__ckd_salloc__") or cal in extra_allocs:
@@ -1112,6 +1113,7 @@ def unwind_rule(ctx, P, fns, floor=10, only_readers=True, extra_allocs=(), extra
                     if d is not None and not cal.endswith("_retain"):
                         owned.setdefault(d, [])
                         objects.add(d)
+                        obj_sites.setdefault(d, []).append(p)
         if not owned:
             continue
         ctx.touch(f)
@@ -1196,6 +1198,38 @@ def unwind_rule(ctx, P, fns, floor=10, only_readers=True, extra_allocs=(), extra
                 for n, fr in enumerate(frees):
                     if f.cfg.path_exists(paths.pos_of(f, st["node"]), lambda e, fr=fr: e == fr, is_barrier=lambda e: e in resets) and not paths.must_pass(f, fr, lambda e: e in resets):
                         ctx.bad(r, key(f, "%s:dangling:%s#%d" % (name, fldp, n)), f.where(fr), "`%s` was stored in `%s` and is released here while that field still points to it: the next user of the object reads or releases freed memory" % (name, fldp))
+            if d in objects:
+                # an object built here: a refusal (error return) after it exists passes its release or its
+                # hand-over - unless the very same test already refused before the object was built (a
+                # repeated check whose failing arm cannot be taken)
+                for a in obj_sites.get(d, []):
+                    hand = set(frees)
+                    for c in f.calls():
+                        if c not in frees and any(paths.local_of(f, x) == d for x in f.args(c)) and f.nodes[c].get("callee") not in ("err_msg", "fsg_model_word_add", "fsg_model_trans_add", "fsg_model_null_trans_add", "fsg_model_tag_trans_add", "fsg_model_add_silence", "fsg_model_add_alt", "alignment_add_word", "alignment_populate", "alignment_n_words", "fsg_model_word_id"):
+                            hand.add(c)
+                    for st in paths.stores(f):
+                        if st["rhs"] is not None and paths.local_of(f, st["rhs"]) == d and st["kind"] in ("Member", "Un", "Subscript"):
+                            hand.add(st["node"])
+                    null_edges = set(paths.guard_edges(f, lambda fn, cc, pol, name=name: paths.cond_atoms(fn, cc, pol, subst=False)[1] is False and (paths.cond_atoms(fn, cc, pol, subst=False)[0] == name or paths.cond_atoms(fn, cc, pol, subst=False)[0].startswith(name + " = "))))
+                    # a release under a flag ("if (new_config) config_free(config)") counts for the paths through its test
+                    for fr in list(frees):
+                        fb = paths.pos_of(f, fr)[0]
+                        for (s0, d0, cc, pol) in f.cfg.cond_edges():
+                            if d0 == fb:
+                                hand.update(e_ for e_ in f.cfg.blocks[s0]["elems"][-1:] if e_ >= 0)
+                    for rt in _error_exits(f):
+                        if not f.cfg.path_exists(paths.pos_of(f, a), lambda e, rt=rt: e == rt, is_barrier=lambda e: e in hand, removed_edges=null_edges):
+                            continue
+                        rb = paths.pos_of(f, rt)[0]
+                        gconds = set(f.canon(cc, subst=False) for (s0, d0, cc, pol) in f.cfg.cond_edges() if d0 == rb)
+                        earlier = False
+                        for r0 in _error_exits(f):
+                            if r0 == rt or f.cfg.path_exists(paths.pos_of(f, a), lambda e, r0=r0: e == r0):
+                                continue
+                            b0 = paths.pos_of(f, r0)[0]
+                            if gconds & set(f.canon(cc, subst=False) for (s0, d0, cc, pol) in f.cfg.cond_edges() if d0 == b0):
+                                earlier = True
+                        ctx.check(r, earlier or not gconds, key(f, "%s:built-then-refused@%d" % (name, f.line(rt))), f.where(rt), "the object `%s` built at line %s is neither released nor handed over on the way to this refusal, and nothing refused on the same test before it was built: every refused call leaks it (and the references it holds)" % (name, f.line(a)))
             if escapes or d in objects:
                 continue
             # temporary: every exit after an allocation passes a free (null-test edges of the local removed)
